@@ -7,6 +7,7 @@ from harness.framework import Suite
 
 PID = "C13"
 TRANSLATE = True
+TRANSLATE_ALGO = ["AlgoVolCtl"]
 LEAN_MODS = ["SwcVerif.Props.C13"]
 THEOREMS = [
     "C13.sphere_volume", "C13.cap_volume", "C13.frustum_volume", "C13.frustum_symm",
@@ -628,7 +629,82 @@ class Session(Suite):
         return sum(1 for st in case["steps"] if st["kind"] in PAIR) >= 2
 
 
-SUITES = [Closed(), Session()]
+
+# ----------------------------------------------------------------------------------------------------------------------------------
+# T39 `volctl`: the GENERATED control flow of the closed forms (Gen/AlgoVolCtl.lean, driver op `gvolctl`) on rational configurations whose
+# square roots are rational (Pythagorean directions / axis-aligned frusta), compared with the real functions within 1e-9 relative.
+class GenCtl(Suite):
+    name = "c13.genctl"
+    TRIPLES = [(0, 0, 1, 1), (3, 4, 0, 5), (0, -4, 3, 5), (1, 2, 2, 3), (2, 3, 6, 7), (-2, 6, 3, 7), (4, 4, 7, 9), (1, 4, 8, 9)]
+
+    def cases(self, rng, tier, widen):
+        out = []
+        q = lambda lo, hi: rng.randint(lo * 8, hi * 8) / 8
+        for i in range(24 if tier == "quick" and not widen else 120):
+            ca = [rng.randint(-5, 5) for _ in range(3)]
+            if i % 2 == 0:
+                u = rng.choice(self.TRIPLES)
+                ra, rb = q(1, 6), q(1, 6)
+                mode = i // 2 % 6
+                d = [ra + rb, abs(ra - rb), ra + rb + q(0, 2), abs(ra - rb) / 2, (ra + rb + abs(ra - rb)) / 2, q(0, 12)][mode]
+                m = d / u[3]
+                out.append({"kind": "sphere2", "ca": ca, "ra": ra, "cb": [ca[k] + m * u[k] for k in range(3)], "rb": rb, "class": f"sphere2/{mode}"})
+            else:
+                ax = rng.randrange(3); sg = rng.choice([-1, 1])
+                r1, h = q(1, 6), q(1, 10)
+                mode = i // 2 % 5
+                r2 = [r1 + q(0, 3), max(0.0, r1 - q(1, 6)), r1, q(0, 8), r1 / 8][mode]
+                if mode == 2:
+                    h = r1
+                c2 = list(ca); c2[ax] = ca[ax] + sg * h
+                perp = [0, 0, 0]; perp[(ax + 1) % 3] = rng.choice([-1, 1])
+                swap = rng.random() < 0.5
+                out.append({"kind": "concentric", "sc": ca, "sr": r1, "f": ([c2, r2, ca, r1] if swap else [ca, r1, c2, r2]), "perp": perp,
+                            "class": f"concentric/{mode}/{'c2' if swap else 'c1'}"})
+        return out
+
+    def run(self, case):
+        from swcgeom.utils.volumetric_object import VolFrustumCone, VolSphere, VolSphere2Intersection, VolSphereFrustumConeIntersection
+        try:
+            if case["kind"] == "sphere2":
+                v = VolSphere2Intersection.calc_intersect_volume(VolSphere(case["ca"], case["ra"]), VolSphere(case["cb"], case["rb"]))
+            else:
+                f = case["f"]
+                v = VolSphereFrustumConeIntersection.calc_concentric_intersect_volume(VolSphere(case["sc"], case["sr"]), VolFrustumCone(f[0], f[1], f[2], f[3]))
+            return {"v": float(v)}
+        except Exception as e:  # noqa: BLE001
+            return {"exc": type(e).__name__}
+
+    def lines(self, case, res):
+        from fractions import Fraction
+        if not isinstance(res, dict):
+            return []
+        fr = lambda x: str(Fraction(x))
+        vec = lambda v: ",".join(fr(x) for x in v)
+        if case["kind"] == "sphere2":
+            g = f"gvolctl what=sphere2 ca={vec(case['ca'])} ra={fr(case['ra'])} cb={vec(case['cb'])} rb={fr(case['rb'])}"
+        else:
+            f = case["f"]
+            g = (f"gvolctl what=concentric eps=1/1000000 sc={vec(case['sc'])} sr={fr(case['sr'])} fc1={vec(f[0])} fr1={fr(f[1])} fc2={vec(f[2])} "
+                 f"fr2={fr(f[3])} perp={vec(case['perp'])}")
+        if "exc" in res:
+            return [(g, "E")]
+        want = res["v"]
+
+        def ok(got):
+            try:
+                x = float(Fraction(got)) * math.pi          # the driver runs with pi = 1: every closed form is linear in pi
+            except (ValueError, ZeroDivisionError):
+                return False
+            return abs(x - want) <= 1e-9 * max(abs(x), abs(want)) + 1e-12
+        ok.__doc__ = repr(want)
+        return [(g, ok)]
+
+    def oracle(self, case, res):
+        return []
+
+
+SUITES = [Closed(), Session(), GenCtl()]
 TECHNIQUE = "Lean 4 theorems over ℝ (interval integrals of the radius profile, disc method) about the volume formulas REGENERATED from the Python source on every run + Float cross-check of the generated terms + numerical quadrature oracle"
 LEVEL_TEXT = ("Kernel-checked over ℝ for all radii, heights and distances: the generated closed forms equal π∫ρ² of the solid's profile "
               "(sphere, cap, frustum, two-sphere lens in disjoint/nested/tangent/proper cases, sphere∩frustum in the code's cases, unions by "
